@@ -1,30 +1,314 @@
 //! Executes a call-order behaviour of spec/MsgReader.tla on the real
-//! iterators: a cursor is a `QuestionSection` or a `RecordSection` (both
-//! `Copy`), fork/restore copy it.
+//! iterators: a cursor is a `QuestionSection`, a `RecordSection` (both
+//! `Copy`) or one of the typed iterators a record section is traded in for
+//! (`RecordIter` from limit_to / limit_to_in, `AnyRecordIter` from
+//! into_records; both `Clone`); fork/restore copy it.  Every behaviour is
+//! executed by two routes, which the specification does not tell apart:
+//! on a `Message<&[u8]>` with cursors copied implicitly, and on the
+//! `&Message<[u8]>` that `AsRef` yields for a `Message<Vec<u8>>`, with every
+//! copy made through `Clone::clone`.
 use crate::wire::*;
-use domain::base::message::{QuestionSection, RecordSection};
+use domain::base::message::{AnyRecordIter, QuestionSection, RecordIter, RecordSection};
+use domain::base::name::ParsedName;
+use domain::base::rdata::{ParseAnyRecordData, ParseRecordData, UnknownRecordData};
+use domain::base::wire::ParseError;
 use domain::base::Message;
+use domain::rdata::{AllRecordData, Cname, Mx, ZoneRecordData, A};
+use octseq::octets::Octets;
 use serde_json::{json, Value};
 use verif_harness::common::*;
 
-#[derive(Clone, Copy)]
-enum Cur<'a> {
-    Q(QuestionSection<'a, &'a [u8]>, i32),
-    R(RecordSection<'a, &'a [u8]>, i32),
-    Dead,
+/// a typed iterator of whatever record-data type
+trait TCur<'a, O: ?Sized + 'a> {
+    fn next(&mut self) -> Option<Value>;
+    fn dup(&self) -> Box<dyn TCur<'a, O> + 'a>;
+    fn unwrap(self: Box<Self>) -> RecordSection<'a, O>;
+    fn next_section(self: Box<Self>) -> Result<Option<RecordSection<'a, O>>, ParseError>;
 }
 
-fn pos_of(c: &Cur) -> i64 {
-    match c {
-        // -1 once the iterator has reported an error
-        Cur::Q(q, st) => if *st < 0 { -1 } else { q.pos() as i64 },
-        Cur::R(r, st) => if *st < 0 { -1 } else { r.pos() as i64 },
-        Cur::Dead => -1,
+struct Lim<'a, O: ?Sized, D>(RecordIter<'a, O, D>);
+struct Any<'a, O: ?Sized, D>(AnyRecordIter<'a, O, D>);
+
+impl<'a, O, D> TCur<'a, O> for Lim<'a, O, D>
+where
+    O: Octets + ?Sized + 'a,
+    D: ParseRecordData<'a, O> + Summ + 'a,
+{
+    fn next(&mut self) -> Option<Value> {
+        self.0.next().map(telem)
+    }
+    fn dup(&self) -> Box<dyn TCur<'a, O> + 'a> {
+        Box::new(Lim(self.0.clone()))
+    }
+    fn unwrap(self: Box<Self>) -> RecordSection<'a, O> {
+        self.0.unwrap()
+    }
+    fn next_section(self: Box<Self>) -> Result<Option<RecordSection<'a, O>>, ParseError> {
+        self.0.next_section()
     }
 }
 
-fn q_item_json(q: &domain::base::Question<domain::base::ParsedName<&[u8]>>) -> Value {
-    json!([use_name(q.qname()), q.qtype().to_int(), q.qclass().to_int()])
+impl<'a, O, D> TCur<'a, O> for Any<'a, O, D>
+where
+    O: Octets + ?Sized + 'a,
+    D: ParseAnyRecordData<'a, O> + Summ + 'a,
+{
+    fn next(&mut self) -> Option<Value> {
+        self.0.next().map(telem)
+    }
+    fn dup(&self) -> Box<dyn TCur<'a, O> + 'a> {
+        Box::new(Any(self.0.clone()))
+    }
+    fn unwrap(self: Box<Self>) -> RecordSection<'a, O> {
+        self.0.unwrap()
+    }
+    fn next_section(self: Box<Self>) -> Result<Option<RecordSection<'a, O>>, ParseError> {
+        self.0.next_section()
+    }
+}
+
+/// the cursor with what the caller knows about it: the section number and
+/// whether it has returned an error
+enum Cur<'a, O: ?Sized + 'a> {
+    Q(QuestionSection<'a, O>, bool),
+    R(RecordSection<'a, O>, i32, bool),
+    T(Box<dyn TCur<'a, O> + 'a>, i32, bool),
+    Dead,
+}
+
+impl<'a, O: Octets + ?Sized + 'a> Cur<'a, O> {
+    fn dup(&self, explicit: bool) -> Self {
+        match self {
+            // Copy and Clone::clone are two routes to the same thing
+            Cur::Q(q, e) => Cur::Q(if explicit { Clone::clone(q) } else { *q }, *e),
+            Cur::R(r, s, e) => Cur::R(if explicit { Clone::clone(r) } else { *r }, *s, *e),
+            Cur::T(t, s, e) => Cur::T(t.dup(), *s, *e),
+            Cur::Dead => Cur::Dead,
+        }
+    }
+    fn pos(&self) -> i64 {
+        match self {
+            Cur::Q(q, e) => if *e { -1 } else { q.pos() as i64 },
+            Cur::R(r, _, e) => if *e { -1 } else { r.pos() as i64 },
+            // a typed iterator has no pos(); its section has
+            Cur::T(t, _, e) => if *e { -1 } else { t.dup().unwrap().pos() as i64 },
+            Cur::Dead => -1,
+        }
+    }
+}
+
+fn q_item_json<Oc: AsRef<[u8]>>(q: &domain::base::Question<ParsedName<Oc>>, nmf: &dyn Fn(&ParsedName<Oc>) -> Value) -> Value {
+    json!([nmf(q.qname()), q.qtype().to_int(), q.qclass().to_int()])
+}
+
+fn limit<'a, O>(sec: RecordSection<'a, O>, view: &str) -> Option<Box<dyn TCur<'a, O> + 'a>>
+where
+    O: Octets + ?Sized + 'a,
+{
+    type PNr<'a, O> = ParsedName<<O as Octets>::Range<'a>>;
+    type All<'a, O> = AllRecordData<<O as Octets>::Range<'a>, PNr<'a, O>>;
+    type Zone<'a, O> = ZoneRecordData<<O as Octets>::Range<'a>, PNr<'a, O>>;
+    type Unk<'a, O> = UnknownRecordData<<O as Octets>::Range<'a>>;
+    type Optd<'a, O> = domain::base::opt::Opt<<O as Octets>::Range<'a>>;
+    Some(match view {
+        "lim.A" => Box::new(Lim(sec.limit_to::<A>())),
+        "limin.A" => Box::new(Lim(sec.limit_to_in::<A>())),
+        "lim.All" => Box::new(Lim(sec.limit_to::<All<'a, O>>())),
+        "limin.All" => Box::new(Lim(sec.limit_to_in::<All<'a, O>>())),
+        "any.All" => Box::new(Any(sec.into_records::<All<'a, O>>())),
+        "lim.Cname" => Box::new(Lim(sec.limit_to::<Cname<PNr<'a, O>>>())),
+        "limin.Cname" => Box::new(Lim(sec.limit_to_in::<Cname<PNr<'a, O>>>())),
+        "limin.Mx" => Box::new(Lim(sec.limit_to_in::<Mx<PNr<'a, O>>>())),
+        "lim.Opt" => Box::new(Lim(sec.limit_to::<Optd<'a, O>>())),
+        "lim.Zone" => Box::new(Lim(sec.limit_to::<Zone<'a, O>>())),
+        "limin.Unknown" => Box::new(Lim(sec.limit_to_in::<Unk<'a, O>>())),
+        _ => return None,
+    })
+}
+
+/// `nmf` turns a returned name into its labels, `rdf` a raw record into the
+/// spec's view of its RDATA (with the whole exercise battery on the
+/// `&[u8]` route)
+fn run_on<'a, O>(
+    msg: &'a Message<O>,
+    input: &Value,
+    explicit: bool,
+    nmf: &dyn Fn(&ParsedName<O::Range<'a>>) -> Value,
+    rdf: &dyn Fn(&domain::base::ParsedRecord<'a, O>) -> Value,
+) -> Value
+where
+    O: Octets + ?Sized + 'a,
+{
+    let counts = msg.header_counts();
+    let start = input["start"].as_i64().unwrap_or(0) as i32;
+    let opened = match start {
+        0 => Ok(Cur::Q(msg.question(), false)),
+        1 => msg.answer().map(|s| Cur::R(s, 1, false)),
+        2 => msg.authority().map(|s| Cur::R(s, 2, false)),
+        _ => msg.additional().map(|s| Cur::R(s, 3, false)),
+    };
+    let mut cur = match opened {
+        Ok(c) => c,
+        Err(_) => return json!({"res": "cannot open"}),
+    };
+    let mut saved: Option<Cur<'a, O>> = None;
+    let mut res = vec![];
+    for op in input["ops"].as_array().cloned().unwrap_or_default() {
+        let op = op.as_str().unwrap_or("").to_string();
+        let (k, v): (String, Value) = match op.as_str() {
+            "next" => match &mut cur {
+                Cur::Q(q, e) => match q.next() {
+                    Some(Ok(x)) => ("q".into(), q_item_json(&x, nmf)),
+                    Some(Err(_)) => {
+                        *e = true;
+                        ("err".into(), json!([]))
+                    }
+                    None => ("none".into(), json!([])),
+                },
+                Cur::R(r, _, e) => match r.next() {
+                    Some(Ok(x)) => {
+                        let owner = x.owner();
+                        let ttl = x.ttl().as_secs();
+                        ("r".into(), json!([labels_json(owner.iter()), x.rtype().to_int(), x.class().to_int(),
+                                            (ttl >> 16) as u16, (ttl & 0xFFFF) as u16, x.rdlen(), rdf(&x)]))
+                    }
+                    Some(Err(_)) => {
+                        *e = true;
+                        ("err".into(), json!([]))
+                    }
+                    None => ("none".into(), json!([])),
+                },
+                Cur::T(t, _, e) => match t.next() {
+                    Some(Value::Array(el)) => match el[0].as_str() {
+                        Some("r") => ("tr".into(), Value::Array(el[1..].to_vec())),
+                        Some("e") => {
+                            *e = true;
+                            ("err".into(), json!([]))
+                        }
+                        _ => ("und".into(), json!([])),
+                    },
+                    Some(_) => ("badelem".into(), json!([])),
+                    None => ("none".into(), json!([])),
+                },
+                Cur::Dead => ("dead".into(), json!([])),
+            },
+            "nextsec" => {
+                let taken = std::mem::replace(&mut cur, Cur::Dead);
+                let moved = |r: Result<Option<RecordSection<'a, O>>, ParseError>, sec: i32| match r {
+                    Ok(Some(n)) => {
+                        let cnt = if sec + 1 == 2 { counts.nscount() } else { counts.arcount() };
+                        (Cur::R(n, sec + 1, false), "sec", json!([sec + 1, cnt]))
+                    }
+                    Ok(None) => (Cur::Dead, "nosec", json!([])),
+                    Err(_) => (Cur::Dead, "err", json!([])),
+                };
+                let (nc, k, v) = match taken {
+                    Cur::Q(q, _) => match q.next_section() {
+                        Ok(r) => (Cur::R(r, 1, false), "sec", json!([1, counts.ancount()])),
+                        Err(_) => (Cur::Dead, "err", json!([])),
+                    },
+                    Cur::R(r, sec, _) => moved(r.next_section(), sec),
+                    Cur::T(t, sec, _) => moved(t.next_section(), sec),
+                    Cur::Dead => (Cur::Dead, "dead", json!([])),
+                };
+                cur = nc;
+                (k.into(), v)
+            }
+            "fork" => {
+                saved = Some(cur.dup(explicit));
+                ("ok".into(), json!([]))
+            }
+            "restore" => {
+                cur = saved.as_ref().expect("restore without fork").dup(explicit);
+                ("ok".into(), json!([]))
+            }
+            "unwrap" => match std::mem::replace(&mut cur, Cur::Dead) {
+                Cur::T(t, sec, e) => {
+                    cur = Cur::R(t.unwrap(), sec, e);
+                    ("ok".into(), json!([]))
+                }
+                other => {
+                    cur = other;
+                    ("badop".into(), json!([]))
+                }
+            },
+            "canon" => match std::panic::catch_unwind(std::panic::AssertUnwindSafe(|| msg.canonical_name())) {
+                Ok(Some(n)) => ("name".into(), nmf(&n)),
+                Ok(None) => ("none".into(), json!([])),
+                Err(_) => ("panic".into(), json!([])),
+            },
+            "opt" => match msg.opt() {
+                Some(opt) => {
+                    let mut opts = vec![];
+                    for x in opt.opt().iter::<domain::base::opt::UnknownOptData<_>>().flatten() {
+                        opts.push(json!([x.code().to_int(), x.data().as_ref().len()]));
+                    }
+                    let ttl = opt.as_record().ttl().as_secs();
+                    ("opt".into(), json!([opt.udp_payload_size(), (ttl >> 16) as u16, (ttl & 0xFFFF) as u16, opts]))
+                }
+                None => ("none".into(), json!([])),
+            },
+            "first" => match msg.first_question() {
+                Some(q) => ("q".into(), q_item_json(&q, nmf)),
+                None => ("none".into(), json!([])),
+            },
+            view => match std::mem::replace(&mut cur, Cur::Dead) {
+                Cur::R(r, sec, e) => match limit(r, view) {
+                    Some(t) => {
+                        cur = Cur::T(t, sec, e);
+                        ("ok".into(), json!([]))
+                    }
+                    None => {
+                        cur = Cur::R(r, sec, e);
+                        ("badop".into(), json!([]))
+                    }
+                },
+                other => {
+                    cur = other;
+                    ("badop".into(), json!([]))
+                }
+            },
+        };
+        res.push(json!({"k": k, "v": v, "pos": cur.pos()}));
+    }
+    json!({"res": res})
+}
+
+/// RDATA of a raw record as the spec sees it (the projection's `old_rd`
+/// without the exercise battery), for either octets type
+fn rd_of<'a, O: Octets + ?Sized>(rec: &domain::base::ParsedRecord<'a, O>) -> Value {
+    let t = rec.rtype().to_int();
+    let kind = match t {
+        2 | 5 | 12 | 15 | 6 => "names",
+        41 => "opt",
+        1 | 28 => "fixed",
+        65280..=65534 => "raw",
+        _ => "opaque",
+    };
+    let fail = json!({"k": kind, "ok": kind == "opaque", "names": [], "opts": []});
+    let r = match rec.to_any_record::<AllRecordData<_, ParsedName<_>>>() {
+        Ok(r) => r,
+        Err(_) => return fail,
+    };
+    let mut names = vec![];
+    let mut opts = vec![];
+    match r.data() {
+        AllRecordData::Ns(d) => names.push(labels_json(d.nsdname().iter())),
+        AllRecordData::Cname(d) => names.push(labels_json(d.cname().iter())),
+        AllRecordData::Ptr(d) => names.push(labels_json(d.ptrdname().iter())),
+        AllRecordData::Mx(d) => names.push(labels_json(d.exchange().iter())),
+        AllRecordData::Soa(d) => {
+            names.push(labels_json(d.mname().iter()));
+            names.push(labels_json(d.rname().iter()));
+        }
+        AllRecordData::Opt(o) => {
+            for x in o.iter::<domain::base::opt::UnknownOptData<_>>().flatten() {
+                opts.push(json!([x.code().to_int(), x.data().as_ref().len()]));
+            }
+        }
+        _ => {}
+    }
+    json!({"k": kind, "ok": true, "names": names, "opts": opts})
 }
 
 pub fn run_ops(input: &Value) -> Value {
@@ -34,87 +318,16 @@ pub fn run_ops(input: &Value) -> Value {
         Ok(m) => m,
         Err(_) => return json!({"res": "short"}),
     };
-    let mut cur = Cur::Q(msg.question(), 0);
-    let mut saved: Option<Cur> = None;
-    let mut res = vec![];
-    for op in input["ops"].as_array().cloned().unwrap_or_default() {
-        let op = op.as_str().unwrap_or("").to_string();
-        let (k, v): (String, Value) = match op.as_str() {
-            "next" => match &mut cur {
-                Cur::Q(q, st) => match q.next() {
-                    Some(Ok(x)) => ("q".into(), q_item_json(&x)),
-                    Some(Err(_)) => {
-                        *st = -1;
-                        ("err".into(), json!([]))
-                    }
-                    None => ("none".into(), json!([])),
-                },
-                Cur::R(r, st) => match r.next() {
-                    Some(Ok(x)) => {
-                        let owner = x.owner();
-                        let ttl = x.ttl().as_secs();
-                        ("r".into(), json!([labels_json(owner.iter()), x.rtype().to_int(), x.class().to_int(),
-                                            (ttl >> 16) as u16, (ttl & 0xFFFF) as u16, x.rdlen(), old_rd(&x)]))
-                    }
-                    Some(Err(_)) => {
-                        *st = -1;
-                        ("err".into(), json!([]))
-                    }
-                    None => ("none".into(), json!([])),
-                },
-                Cur::Dead => ("dead".into(), json!([])),
-            },
-            "nextsec" => {
-                let (nc, k, v) = match cur {
-                    Cur::Q(q, _) => match q.next_section() {
-                        Ok(r) => (Cur::R(r, 1), "sec", json!([1, msg.header_counts().ancount()])),
-                        Err(_) => (Cur::Dead, "err", json!([])),
-                    },
-                    Cur::R(r, sec) => match r.next_section() {
-                        Ok(Some(n)) => {
-                            let c = msg.header_counts();
-                            let cnt = if sec + 1 == 2 { c.nscount() } else { c.arcount() };
-                            (Cur::R(n, sec + 1), "sec", json!([sec + 1, cnt]))
-                        }
-                        Ok(None) => (Cur::Dead, "nosec", json!([])),
-                        Err(_) => (Cur::Dead, "err", json!([])),
-                    },
-                    Cur::Dead => (Cur::Dead, "dead", json!([])),
-                };
-                cur = nc;
-                (k.into(), v)
-            }
-            "fork" => {
-                saved = Some(cur);
-                ("ok".into(), json!([]))
-            }
-            "restore" => {
-                cur = saved.expect("restore without fork");
-                ("ok".into(), json!([]))
-            }
-            "canon" => match std::panic::catch_unwind(std::panic::AssertUnwindSafe(|| msg.canonical_name())) {
-                Ok(Some(n)) => ("name".into(), use_name(&n)),
-                Ok(None) => ("none".into(), json!([])),
-                Err(_) => ("panic".into(), json!([])),
-            },
-            "opt" => match msg.opt() {
-                Some(opt) => {
-                    let mut opts = vec![];
-                    for x in opt.opt().iter::<domain::base::opt::UnknownOptData<_>>().flatten() {
-                        opts.push(json!([x.code().to_int(), x.data().len()]));
-                    }
-                    let ttl = opt.as_record().ttl().as_secs();
-                    ("opt".into(), json!([opt.udp_payload_size(), (ttl >> 16) as u16, (ttl & 0xFFFF) as u16, opts]))
-                }
-                None => ("none".into(), json!([])),
-            },
-            "first" => match msg.first_question() {
-                Some(q) => ("q".into(), q_item_json(&q)),
-                None => ("none".into(), json!([])),
-            },
-            _ => ("badop".into(), json!([])),
-        };
-        res.push(json!({"k": k, "v": v, "pos": pos_of(&cur)}));
+    let by_ref = run_on(&msg, input, false, &|n| use_name(n), &|r| old_rd(r));
+    // the same octets owned by the message, read through AsRef<Message<[u8]>>
+    let owned = Message::from_octets(m.clone()).expect("the same octets");
+    let unsized_msg: &Message<[u8]> = owned.as_ref();
+    let o1: &Vec<u8> = owned.as_ref();
+    let o2: &[u8] = owned.as_ref();
+    assert!(o1 == &m && o2 == slice, "Message::as_ref yields other octets");
+    let by_slice = run_on(unsized_msg, input, true, &|n| use_name(n), &|r| rd_of(r));
+    if by_ref != by_slice {
+        return json!({"res": "routes differ", "by_ref": by_ref, "by_slice": by_slice});
     }
-    json!({"res": res})
+    by_ref
 }
